@@ -1,15 +1,17 @@
-SPECIFICATION Spec
+INIT MCInit
+NEXT MCNext
 CONSTANTS
-  Themes = {"foo", "pango", "sep", "meta1", "meta2"}
+  Themes = {"foo", "pango", "meta1"}
   ML = 2
   MW = 3
   EML = 1
   EMW = 3
   LaML = 0
+  Extras = FALSE
   Variant = "asis"
   Gran = "case"
-  Cases <- MC_Cases
-  LaCases <- MC_LaCases
+  Cases <- MC_None
+  LaCases <- MC_None
 CHECK_DEADLOCK FALSE
 ALIAS Alias
 INVARIANT TypeOK
